@@ -1,0 +1,30 @@
+//go:build verif
+
+// Verification hooks for property C19: the per-topic event-writer registry (add-only, compiled
+// only with -tags verif).
+package the
+
+import (
+	"github.com/AliceO2Group/Control/common/event"
+	"github.com/AliceO2Group/Control/common/event/topic"
+)
+
+// VerifC19RegistryHold takes the registry lock exclusively — as ClearEventWriters or the first
+// use of another topic does — so that callers of EventWriterWithTopic queue up behind it; the
+// returned function gives it back (call it exactly once).
+func VerifC19RegistryHold() (release func()) {
+	mu.Lock()
+	return mu.Unlock
+}
+
+// VerifC19Registered is a copy of the registry (taken under its lock: do not call it while
+// VerifC19RegistryHold is in force).
+func VerifC19Registered() map[topic.Topic]event.Writer {
+	mu.Lock()
+	defer mu.Unlock()
+	out := make(map[topic.Topic]event.Writer, len(writers))
+	for t, w := range writers {
+		out[t] = w
+	}
+	return out
+}
